@@ -412,9 +412,11 @@ impl Engine for E4 {
             let mut guard = 0;
             while !sim.ctx.failed() && !sim.aborted && sim.updates < n + 1 && guard < 4 * n + 8 {
                 guard += 1;
+                alator::verif::set_positions_seed(Some(0));
                 let b = sim.strat.verif_brkr();
                 let cash = b.get_cash_balance();
                 let total = b.get_total_value();
+                alator::verif::set_positions_seed(None);
                 let op = match g.usize(10) {
                     0 => SOp::Withdraw { amt: X(*g.pick(&[100.0, 1000.0, (cash / 2.0).floor().max(1.0), cash + 1.0])) },
                     1 => SOp::WithdrawLiq { amt: X((cash.max(0.0) + (total - cash).max(0.0) * g.f64() * 0.5).floor() + 1.0) },
